@@ -5,11 +5,11 @@ patch=$1; shift
 export CARGO_NET_OFFLINE=true
 git -C /repo apply "$patch" || { echo "patch does not apply"; exit 2; }
 ( cd /verif/harness && cargo build --release --offline 2>&1 | grep -E "^error" )
-case " $* " in *" C12 "*|*" C05 "*) ( cd /verif/harness && cargo build --offline 2>&1 | grep -E "^error" );; esac
+case " $* " in *" C12 "*|*" C05 "*|*" C13 "*) ( cd /verif/harness && cargo build --offline 2>&1 | grep -E "^error" );; esac
 case " $* " in *" C19 "*) ( cd /repo && CARGO_TARGET_DIR=/verif/.work/cli-target cargo build --offline --features cli 2>&1 | grep -E "^error" );; esac
 git -C /repo checkout -- . ; git -C /repo status --short | head -3
 for p in "$@"; do ( cd /verif && VERIF_SKIP_BUILD=1 ./check $p 2>&1 | grep -E "VIOLATION|OK \(|FAILURES|harness build" | head -4 ); done
 ( cd /verif/harness && cargo build --release --offline 2>&1 | grep -E "^error" )
-case " $* " in *" C12 "*|*" C05 "*) ( cd /verif/harness && cargo build --offline 2>&1 | grep -E "^error" );; esac
+case " $* " in *" C12 "*|*" C05 "*|*" C13 "*) ( cd /verif/harness && cargo build --offline 2>&1 | grep -E "^error" );; esac
 case " $* " in *" C19 "*) ( cd /repo && CARGO_TARGET_DIR=/verif/.work/cli-target cargo build --offline --features cli 2>&1 | grep -E "^error" );; esac
 true
